@@ -52,6 +52,8 @@ func TestRaceStress(t *testing.T) {
 			raceSplit(t, rng)
 		case "C11":
 			raceCrypto(t, rng)
+		case "C10":
+			raceRotation(t, rng)
 		default:
 			t.Fatalf("no race stress for %s", prop)
 		}
@@ -397,6 +399,154 @@ func raceCrypto(t *testing.T, rng *mathrand.Rand) {
 				case kind != 0 && err == nil && !proto.Equal(out, msg):
 					fmt.Printf("CRYPTO-VIOLATION a damaged ciphertext (kind %d) opened to a different message\n", kind)
 					t.Fail()
+				}
+			}
+		}()
+	}
+	close(start)
+	wg.Wait()
+}
+
+// raceRotation (C10, auxiliary): several registered nodes rotate their credentials at the same time against one server
+// storage - each node's own rotations are sequential, those of different nodes overlap - while other goroutines send
+// requests that must be refused (payload under an unrelated key, payload of one node presented under another node's
+// key). Facts that load cannot disturb: a node's honest rotation is honored, its reply opens with the key that node
+// shared before the rotation and with nobody else's, the credentials inside are accepted by the new key's owner, the new
+// record carries that node's state; a request that must be refused is refused.
+func raceRotation(t *testing.T, rng *mathrand.Rand) {
+	ctx := context.Background()
+	st, _ := inmem.New(ctx)
+	if _, err := rotation.RotateRootCertificates(ctx, st); err != nil {
+		t.Fatal(err)
+	}
+	n := 3 + rng.Intn(4)
+	type nodeT struct {
+		i     int
+		store nodeenrollment.Storage
+		creds *types.NodeCredentials
+		start *types.NodeCredentials // immutable copy of the credentials the node had before the rush
+	}
+	nodes := make([]*nodeT, n)
+	for i := range nodes {
+		ns, _ := inmem.New(ctx)
+		c, err := types.NewNodeCredentials(ctx, ns)
+		if err != nil {
+			t.Fatal(err)
+		}
+		req, err := c.CreateFetchNodeCredentialsRequest(ctx)
+		if err != nil {
+			t.Fatal(err)
+		}
+		s, _ := structpb.NewStruct(map[string]any{"i": float64(i)})
+		if _, err := registration.AuthorizeNode(ctx, st, req, nodeenrollment.WithState(s)); err != nil {
+			t.Fatal(err)
+		}
+		resp, err := registration.FetchNodeCredentials(ctx, st, req)
+		if err != nil {
+			t.Fatal(err)
+		}
+		if c, err = c.HandleFetchNodeCredentialsResponse(ctx, ns, resp); err != nil {
+			t.Fatal(err)
+		}
+		nodes[i] = &nodeT{i: i, store: ns, creds: c, start: proto.Clone(c).(*types.NodeCredentials)}
+	}
+	bad := func(format string, a ...any) {
+		fmt.Printf("ROTATION-VIOLATION "+format+"\n", a...)
+		t.Fail()
+	}
+	// what a refused request looks like is prepared from snapshots taken before the rush (credentials objects are not shared
+	// between goroutines afterwards)
+	type forged struct {
+		name string
+		req  *types.RotateNodeCredentialsRequest
+	}
+	var forgeries []forged
+	for i, nd := range nodes {
+		stranger, _ := inmem.New(ctx)
+		sc, _ := types.NewNodeCredentials(ctx, stranger, nodeenrollment.WithSkipStorage(true))
+		fr, _ := sc.CreateFetchNodeCredentialsRequest(ctx)
+		// under a key nobody shares with the server: an unregistered node's freshly generated encryption key against the
+		// victim's server key
+		un := proto.Clone(nd.creds).(*types.NodeCredentials)
+		un.EncryptionPrivateKeyBytes = append([]byte(nil), sc.EncryptionPrivateKeyBytes...)
+		if ct, err := nodeenrollment.EncryptMessage(ctx, fr, un); err == nil {
+			forgeries = append(forgeries, forged{"payload under an unrelated key", &types.RotateNodeCredentialsRequest{CertificatePublicKeyPkix: nd.creds.CertificatePublicKeyPkix, EncryptedFetchNodeCredentialsRequest: ct}})
+		}
+		other := nodes[(i+1)%n]
+		if ct, err := nodeenrollment.EncryptMessage(ctx, fr, proto.Clone(other.creds).(*types.NodeCredentials)); err == nil {
+			forgeries = append(forgeries, forged{"payload under another node's key", &types.RotateNodeCredentialsRequest{CertificatePublicKeyPkix: nd.creds.CertificatePublicKeyPkix, EncryptedFetchNodeCredentialsRequest: ct}})
+		}
+	}
+	var wg sync.WaitGroup
+	start := make(chan struct{})
+	for _, nd := range nodes {
+		wg.Add(1)
+		nd := nd
+		rounds := 1 + rng.Intn(3)
+		go func() {
+			defer wg.Done()
+			<-start
+			for k := 0; k < rounds; k++ {
+				cur := nd.creds
+				ns2, _ := inmem.New(ctx)
+				nc, err := types.NewNodeCredentials(ctx, ns2)
+				if err != nil {
+					bad("node %d: new credentials: %v", nd.i, err)
+					return
+				}
+				fr, err := nc.CreateFetchNodeCredentialsRequest(ctx)
+				if err != nil {
+					bad("node %d: fetch request: %v", nd.i, err)
+					return
+				}
+				ct, err := nodeenrollment.EncryptMessage(ctx, fr, cur)
+				if err != nil {
+					bad("node %d: encrypt: %v", nd.i, err)
+					return
+				}
+				resp, err := rotation.RotateNodeCredentials(ctx, st, &types.RotateNodeCredentialsRequest{CertificatePublicKeyPkix: cur.CertificatePublicKeyPkix, EncryptedFetchNodeCredentialsRequest: ct})
+				if err != nil {
+					bad("node %d: an honest rotation (round %d) was refused while other nodes rotated: %v", nd.i, k, err)
+					return
+				}
+				inner := new(types.FetchNodeCredentialsResponse)
+				if err := nodeenrollment.DecryptMessage(ctx, resp.EncryptedFetchNodeCredentialsResponse, cur, inner); err != nil {
+					bad("node %d: the reply does not open with the key this node shared before the rotation: %v", nd.i, err)
+					return
+				}
+				for _, o := range nodes {
+					if o != nd && nodeenrollment.DecryptMessage(ctx, resp.EncryptedFetchNodeCredentialsResponse, proto.Clone(o.start).(*types.NodeCredentials), new(types.FetchNodeCredentialsResponse)) == nil {
+						bad("node %d: the reply opens with node %d's key", nd.i, o.i)
+					}
+				}
+				nc2, err := nc.HandleFetchNodeCredentialsResponse(ctx, ns2, inner)
+				if err != nil {
+					bad("node %d: the credentials in the reply are not accepted by the new key's owner: %v", nd.i, err)
+					return
+				}
+				kid, _ := nodeenrollment.KeyIdFromPkix(nc2.CertificatePublicKeyPkix)
+				ni, err := types.LoadNodeInformation(ctx, st, kid)
+				if err != nil {
+					bad("node %d: no record under the new key after an honored rotation: %v", nd.i, err)
+					return
+				}
+				if got := ni.GetState().GetFields()["i"].GetNumberValue(); int(got) != nd.i || ni.GetState() == nil {
+					bad("node %d: the new record carries state %v", nd.i, ni.GetState())
+				}
+				nd.creds, nd.store = nc2, ns2
+			}
+		}()
+	}
+	for g := 0; g < 4; g++ {
+		wg.Add(1)
+		r2 := mathrand.New(mathrand.NewSource(rng.Int63()))
+		go func() {
+			defer wg.Done()
+			<-start
+			for j := 0; j < 6 && len(forgeries) > 0; j++ {
+				f := forgeries[r2.Intn(len(forgeries))]
+				if _, err := rotation.RotateNodeCredentials(ctx, st, proto.Clone(f.req).(*types.RotateNodeCredentialsRequest)); err == nil {
+					bad("a request that must be refused was honored under parallel use: %s", f.name)
 				}
 			}
 		}()
